@@ -305,6 +305,25 @@ func vfGenC01(rt *rapid.T) vfC01Case {
 		}
 		cs.Cfg.SegC2S, cs.Cfg.SegS2C = vfSeg{}, vfSeg{}
 	}
+	if dirMode && rapid.IntRange(0, 9).Draw(rt, "archive_heavy") == 0 {
+		// a directory that travels as one archive stream of a few hundred KiB with default compression (the compression probe
+		// looks at streams of 128 KiB and more; an archive stream has no file behind it)
+		cs.Cfg.Overwrite, cs.Pre = false, 0
+		cs.Cfg.Protocol = 4
+		cs.Cfg.Compress = 0
+		cs.Cfg.WinServer = false
+		for i := range cs.Paths {
+			fs := cs.Paths[i].Tree.Files
+			if len(fs) > 1 || fs[0].IsDir {
+				fs = append(fs, vfFile{Rel: []string{fs[0].Rel[0], "archive-heavy.bin"},
+					Size: rapid.SampledFrom([]int64{131072, 140000, 300000, 524288}).Draw(rt, "archive_size"),
+					Kind: rapid.SampledFrom([]int{vfKindNoise, vfKindText, vfKindHeadCompressible}).Draw(rt, "archive_kind"), Seed: 77})
+				cs.Paths[i].Tree.Files = fs
+				break
+			}
+		}
+		cs.Cfg.SegC2S, cs.Cfg.SegS2C = vfSeg{}, vfSeg{}
+	}
 	// duplicate base names with -y are refused by design
 	if cs.Cfg.Overwrite {
 		seen := map[string]bool{}
